@@ -82,8 +82,11 @@ BadHeads == {B("Xh", 0, 0, 0, "", tg) : tg \in HeadTags}
 \* (expmax: 2^64-1) is forged; the token is valid, so the reader must accept them: ghosts
 ForgedValid == {B("Xv", 0, 1, 0, "", tg) : tg \in {"tsmax", "expmax"}}
 GoodMarks == {B("M", 0, rem, s, "", "") : rem \in 1 .. 2, s \in 0 .. 1}
-\* markers with a VALID token and a forged remaining length: 0, past the device end, 2^64-1
-ForgedMarks == {B("M", 0, 0, 1, "", "rem0"), B("M", 0, NB + 5, 1, "", "rempast"), B("M", 0, NB + 5, 1, "", "remmax")}
+\* markers with a VALID token and a forged remaining length: 0, past the device end, 2^64-1, and the two lengths at
+\* which sector + length leaves the 64-bit range (2^64 - sector: wraps to 0; one more: wraps to 1), in both states
+\* (a PENDING marker is repaired, a COMPLETE one is skipped: different arithmetic on the same field)
+ForgedMarks == {B("M", 0, 0, 1, "", "rem0"), B("M", 0, NB + 5, 1, "", "rempast")}
+               \cup {B("M", 0, NB + 5, st, "", tg) : st \in 0 .. 1, tg \in {"remmax", "remwrap", "remwrap1"}}
 Junk == {B("Xm", 0, 0, 0, "", ""), B("LM", 0, 0, 0, "", ""), B("X", 0, 0, 0, "", "")}
 
 BlkAll == {Bz} \cup Heads \cup Tails({"", "H", "M", "Xh", "Xm"}) \cup BadHeads \cup ForgedValid \cup GoodMarks \cup ForgedMarks \cup Junk
